@@ -212,6 +212,111 @@ fn payload(rng: &mut Rng, n: u64, big_ok: bool) -> Vec<u8> {
     }
 }
 
+/// HTTP client under transport faults: the reference server performs a request and then either
+/// drops the connection without answering or answers 500. Whatever the client then reports must
+/// be an error or the truth about the chain as it was *before* the call — in particular a version
+/// whose parent was the latest is never reported as rejected.
+fn http_faults_case(i: u64, seed: u64, out: &mut CaseOut) {
+    let mut rng = Rng::derive(seed, "c08-http-faults", i);
+    let replay = json!({"stratum": "http-faults", "index": i});
+    let mut b = match open(Kind::Http, 1) {
+        Ok(b) => b,
+        Err(e) => {
+            out.inconclusive = Some(e);
+            return;
+        }
+    };
+    let state = b._http.as_ref().unwrap().state.clone();
+    let fault: std::sync::Arc<std::sync::Mutex<Option<u16>>> = Default::default();
+    {
+        let f2 = fault.clone();
+        state.lock().unwrap().mutator = Some(Box::new(move |_rec, resp| {
+            if let Some(code) = f2.lock().unwrap().take() {
+                resp.status = code;
+                resp.headers.clear();
+                resp.body.clear();
+            }
+        }));
+    }
+    // server-side truth, read from the reference server's own chain
+    let truth = |state: &std::sync::Arc<std::sync::Mutex<crate::httpref::HttpState>>| -> Vec<(Uuid, Uuid)> {
+        state.lock().unwrap().clients.values().next().map(|c| c.versions.iter().map(|(v, p, _)| (*v, *p)).collect()).unwrap_or_default()
+    };
+    let mut trail: Vec<String> = vec![];
+    for step in 0..(4 + rng.below(8)) {
+        let before = truth(&state);
+        let latest = before.last().map(|x| x.0);
+        let mode = match rng.below(5) {
+            0 | 1 => None,
+            2 | 3 => Some(0u16),
+            _ => Some(500u16),
+        };
+        let mode_name = match mode {
+            None => "no-fault",
+            Some(0) => "reply-lost",
+            _ => "status-500-after-effect",
+        };
+        *fault.lock().unwrap() = mode;
+        let mut srv = std::mem::replace(&mut b.handles[0], Box::new(NullServer));
+        if rng.chance(3, 5) {
+            let stale = rng.chance(1, 4) && before.len() >= 2;
+            let parent = if stale { before[rng.below(before.len() - 1)].0 } else { latest.unwrap_or(Uuid::nil()) };
+            let bytes = format!("payload-{step}-{}", rng.next_u64()).into_bytes();
+            trail.push(format!("add({}{}) [{mode_name}]", model::su(parent), if stale { " STALE" } else { "" }));
+            let res = b.drive(srv.add_version(parent, bytes));
+            out.count("http_fault_add_calls", 1);
+            let after = truth(&state);
+            match res {
+                Err(_) => out.count("http_fault_calls_reported_as_error", 1),
+                Ok((AddVersionResult::Ok(v), _)) => {
+                    if stale || after.last().map(|x| x.0) != Some(v) || after.len() != before.len() + 1 {
+                        out.violate(format!("http/add_version/ok-not-matching-server@{mode_name}"), format!("client reported Ok({}) but the server's chain is {:?}; trail {trail:?}", model::su(v), after.iter().map(|x| model::su(x.0)).collect::<Vec<_>>()), replay);
+                        return;
+                    }
+                }
+                Ok((AddVersionResult::ExpectedParentVersion(x), _)) => {
+                    if !stale {
+                        out.violate(format!("http/add_version/rejected-although-parent-was-latest@{mode_name}"), format!("add_version(parent = latest = {}) was reported as rejected (naming {}), while the server accepted it: chain grew {} -> {}; trail {trail:?}", model::su(parent), model::su(x), before.len(), after.len()), replay);
+                        return;
+                    }
+                    if Some(x) != latest {
+                        out.violate(format!("http/add_version/rejection-names-wrong-version@{mode_name}"), format!("names {} but the latest was {:?}; trail {trail:?}", model::su(x), latest.map(model::su)), replay);
+                        return;
+                    }
+                }
+            }
+            if mode.is_some() && !stale && after.len() == before.len() + 1 {
+                out.count("http_adds_applied_with_reply_lost", 1);
+            }
+        } else {
+            let parent = if before.is_empty() || rng.chance(1, 4) { Uuid::nil() } else { before[rng.below(before.len())].1 };
+            trail.push(format!("get({}) [{mode_name}]", model::su(parent)));
+            let res = b.drive(srv.get_child_version(parent));
+            out.count("http_fault_get_calls", 1);
+            let want = before.iter().find(|x| x.1 == parent).map(|x| x.0);
+            match (res, want) {
+                (Err(_), _) => out.count("http_fault_calls_reported_as_error", 1),
+                (Ok(GetVersionResult::NoSuchVersion), None) => {}
+                (Ok(GetVersionResult::Version { version_id, parent_version_id, .. }), Some(w)) if version_id == w && parent_version_id == parent => {}
+                (Ok(other), w) => {
+                    let got = match other {
+                        GetVersionResult::NoSuchVersion => "no such version".to_string(),
+                        GetVersionResult::Version { version_id, .. } => model::su(version_id),
+                    };
+                    out.violate(format!("http/get_child_version/wrong-answer@{mode_name}"), format!("child of {}: client says {got}, server has {:?}; trail {trail:?}", model::su(parent), w.map(model::su)), replay);
+                    return;
+                }
+            }
+        }
+        b.handles[0] = srv;
+        *fault.lock().unwrap() = None;
+    }
+    out.nontrivial = Some(fnv(format!("{trail:?}").as_bytes()));
+    if i < 1 {
+        out.sample = Some(json!({"trail": trail}));
+    }
+}
+
 fn calls_case(kind: Kind, i: u64, seed: u64, n_calls: usize, out: &mut CaseOut) {
     let mut rng = Rng::derive(seed, "c08-calls", i * 16 + kind as u64);
     let replay = json!({"stratum": kind.name(), "index": i});
@@ -604,7 +709,16 @@ pub fn run(ctx: &Ctx) -> Outcome {
             }
         }
     }
+    if want("http-faults") {
+        let (lo, hi) = range(ctx.tier.pick(40, 2000));
+        run_cases_threads(&mut acc, "http-faults", hi - lo, 4, |i| {
+            let mut out = CaseOut::new();
+            http_faults_case(i + lo, seed, &mut out);
+            out
+        });
+    }
     if only.is_none() {
+        acc.require("http_adds_applied_with_reply_lost", 20, "too few add-version requests whose reply was lost after the server applied them");
         acc.require("versions_accepted", 500, "too few accepted versions");
         acc.require("versions_rejected", 100, "too few rejections");
         acc.require("versions_returned_intact", 300, "too few versions read back");
@@ -613,7 +727,7 @@ pub fn run(ctx: &Ctx) -> Outcome {
     }
     Outcome {
         level: "exploration",
-        rule: "per backend configuration {local (1-3 handles on one directory), git local-only, git + bare remote with 1-3 clones (opened after and — separately — before the remote's first commit), object store (1-3 handles over one in-memory store), HTTP client against the harness reference server (1-3 clients)}: seeded call sequences (add with right/stale/unknown/nil parents, get-child for known/unknown/nil/latest parents, add-snapshot, get-snapshot; payloads empty / 1 byte / non-UTF-8 / zeros / 1.5 MB), one call at a time on a random handle, every result compared with the chain model; plus end-to-end histories of 2-3 replicas syncing through the backend under the chain-replay oracle; non-trivial = chain reached length >= 2; distinct by backend and call trail".into(),
+        rule: "per backend configuration {local (1-3 handles on one directory), git local-only, git + bare remote with 1-3 clones (opened after and — separately — before the remote's first commit), object store (1-3 handles over one in-memory store), HTTP client against the harness reference server (1-3 clients)}: seeded call sequences (add with right/stale/unknown/nil parents, get-child for known/unknown/nil/latest parents, add-snapshot, get-snapshot; payloads empty / 1 byte / non-UTF-8 / zeros / 1.5 MB), one call at a time on a random handle, every result compared with the chain model; plus an HTTP transport-fault stratum (the reference server applies a request, then drops the connection or answers 500; the client's report must be an error or the truth about the chain before the call); plus end-to-end histories of 2-3 replicas syncing through the backend under the chain-replay oracle; non-trivial = chain reached length >= 2; distinct by backend and call trail".into(),
         exhaustive: None,
         acc,
         assumptions: vec![
